@@ -66,7 +66,7 @@ def run(ctx):
 
 
 def _run(ctx):
-    return ec.generic(ctx, 'C09', OPTS, n_quick=(16, 30), n_thorough=(64, 120), with_values=False, with_parse=True, oracle=oracle)
+    return ec.generic(ctx, 'C09', OPTS, n_quick=(32, 50), n_thorough=(96, 200), with_values=False, with_parse=True, oracle=oracle)
 
 
 def replay(ctx, payload):
